@@ -86,9 +86,13 @@ def list_join_clause(segment: BaseSegment) -> list[BaseSegment]:
     """
     traverse from_clause, recursively goes into bracket by default
     """
-    if segment.type in ["from_clause", "update_statement"]:
+    if segment.type in ["from_clause", "from_expression", "update_statement"]:
         # for select from subquery, do not recursively go into subquery
-        if from_expression := segment.get_child("from_expression"):
+        if from_expression := (
+            segment
+            if segment.type == "from_expression"
+            else segment.get_child("from_expression")
+        ):
             join_clause = from_expression.get_child("join_clause")
             if not join_clause:
                 try:
